@@ -76,6 +76,11 @@ def r10a(model, ctx):
                       for t, pol in p.conds) or \
                 any(pol and unparse(t) in (f"{tgt}.shape() == Shape.cast(Shape.cast(shape))", f"{tgt}.shape() == Shape.cast(shape)")
                     for t, pol in p.conds)
+        if not (okc or oks):
+            # recognised-and-wrong is a value handed back with no wrapping at all; any other expression (a wrapping spelt
+            # with other arithmetic, a new helper) is a shape this rule does not decide
+            bare = v is None or isinstance(v, (ast.Name, ast.Constant)) or (isinstance(v, ast.Attribute) and v.attr == "value")
+            need(bare, f"_get_init_value: unrecognised result expression `{unparse(v)[:120]}`")
         kinds.setdefault("const" if okc else "castable", []).append((okc or oks, p))
     for kind, items in sorted(kinds.items()):
         bad = [p for ok_, p in items if not ok_]
@@ -173,6 +178,11 @@ def r10b(model, ctx):
             ok = "value" in env and "width" in env and \
                 cn(env["value"]) == cn(ast.parse("value | (Const.cast(part).value & ((1 << len(Const.cast(part))) - 1)) << width", mode="eval").body) and \
                 cn(env["width"]) == cn(ast.parse("width + len(Const.cast(part))", mode="eval").body)
+            if not ok and "value" in env:
+                # a helper this rule does not know computes the part's bit pattern: not decided here
+                foreign = sorted({dotted(c.func) or unparse(c.func) for c in ast.walk(env["value"]) if isinstance(c, ast.Call)} -
+                                 {"Const.cast", "Const", "unsigned", "len", "int"})
+                need(not foreign, f"Const.cast (Concat): the part value is computed through {foreign}, which this rule does not model")
     ret = [s for s in ast.walk(ast.Module(body=lf.body, type_ignores=[])) if isinstance(s, ast.Return)]
     ok = ok and len(ret) == 1 and unparse(ret[0].value) == "Const(value, width)"
     ctx.check(ok, R, "Const.cast:Concat", "value |= unsigned(part) << width; width += len(part); Const(value, width)",
